@@ -120,7 +120,7 @@ def train_epoch(e, m, o):
     set_state(m, o, w, t)
     with torch.no_grad():
         m.seen.mul_(2).add_(e)
-    for step in range(2):
+    for step in range(1):
         o.zero_grad(set_to_none=True)
         m.v.grad = torch.tensor([e / 4.0 + step, -e / 8.0], dtype=torch.float64)
         m.u.grad = torch.tensor([e / 2.0 - step], dtype=torch.float64)
